@@ -1516,3 +1516,121 @@ theorem procArgs_spec : ∀ (args : List Bytes) (st st' : CfState), procArgs arg
       · cases h
 
 end CaddyModel.C15
+
+/-! ## Accept-Encoding elements in the RFC grammar are read as the RFC means them -/
+namespace CaddyModel.C15
+
+theorem splitOn_not_mem (sep : UInt8) : ∀ (l : Bytes), sep ∉ l → splitOn sep l = [l]
+  | [], _ => rfl
+  | b :: bs, h => by
+    have hb : b ≠ sep := fun e => h (e ▸ List.mem_cons_self)
+    have ih := splitOn_not_mem sep bs (fun hm => h (List.mem_cons_of_mem _ hm))
+    simp [splitOn, hb, ih]
+
+theorem splitOn_append_sep (sep : UInt8) : ∀ (l r : Bytes), sep ∉ l → splitOn sep (l ++ sep :: r) = l :: splitOn sep r
+  | [], r, _ => by simp [splitOn]
+  | b :: bs, r, h => by
+    have hb : b ≠ sep := fun e => h (e ▸ List.mem_cons_self)
+    have ih := splitOn_append_sep sep bs r (fun hm => h (List.mem_cons_of_mem _ hm))
+    simp [splitOn, hb, ih]
+
+theorem trimLeft_ows : ∀ (a x : Bytes), (∀ b ∈ a, isSpace b = true) → trimLeft (a ++ x) = trimLeft x
+  | [], _, _ => rfl
+  | b :: bs, x, h => by
+    have hb := h b List.mem_cons_self
+    simp only [List.cons_append, trimLeft, hb, if_true]
+    exact trimLeft_ows bs x (fun c hc => h c (List.mem_cons_of_mem _ hc))
+
+theorem trimLeft_nonspace (x : Bytes) (h : ∀ b, x.head? = some b → isSpace b = false) : trimLeft x = x := by
+  cases x with
+  | nil => rfl
+  | cons b bs => simp [trimLeft, h b rfl]
+
+/-- `strings.TrimSpace` strips exactly the surrounding white space of a word whose ends are not white space -/
+theorem trimSpace_padded (a w b : Bytes) (ha : ∀ c ∈ a, isSpace c = true) (hb : ∀ c ∈ b, isSpace c = true)
+    (hf : ∀ c, w.head? = some c → isSpace c = false) (hl : ∀ c, w.getLast? = some c → isSpace c = false) :
+    trimSpace (a ++ w ++ b) = w := by
+  unfold trimSpace
+  rw [List.append_assoc, trimLeft_ows a _ ha]
+  cases w with
+  | nil =>
+    -- nothing but white space
+    have : trimLeft ([] ++ b) = [] := by
+      clear hf hl
+      induction b with
+      | nil => rfl
+      | cons c cs ih =>
+        have hc := hb c List.mem_cons_self
+        simp only [List.nil_append, trimLeft, hc, if_true]
+        simpa using ih (fun d hd => hb d (List.mem_cons_of_mem _ hd))
+    rw [this]; rfl
+  | cons c cs =>
+    have h1 : trimLeft ((c :: cs) ++ b) = (c :: cs) ++ b := trimLeft_nonspace _ (fun d hd => hf d (by simpa using hd))
+    rw [h1, List.reverse_append, trimLeft_ows b.reverse _ (fun d hd => hb d (List.mem_reverse.mp hd))]
+    rw [trimLeft_nonspace _ (fun d hd => hl d (by rw [List.getLast?_eq_head?_reverse]; exact hd))]
+    exact List.reverse_reverse _
+
+theorem byte_forall (P : UInt8 → Prop) (h : ∀ n : Fin 256, P (UInt8.ofNat n.val)) (b : UInt8) : P b := by
+  have := h ⟨b.toNat, UInt8.toNat_lt b⟩
+  simpa using this
+
+set_option maxRecDepth 100000 in
+theorem tchar_not_space {b : UInt8} (h : tchar b = true) : isSpace b = false :=
+  byte_forall (fun b => tchar b = true → isSpace b = false) (by decide) b h
+
+set_option maxRecDepth 100000 in
+theorem tchar_ne_semicolon {b : UInt8} (h : tchar b = true) : b ≠ 59 :=
+  byte_forall (fun b => tchar b = true → b ≠ 59) (by decide) b h
+
+theorem ows_isSpace {s : Bytes} (h : IsOWS s) : ∀ c ∈ s, isSpace c = true := by
+  intro c hc
+  rcases h c hc with rfl | rfl <;> decide
+
+theorem ows_no_semicolon {s : Bytes} (h : IsOWS s) : (59 : UInt8) ∉ s := by
+  intro hm
+  rcases h 59 hm with e | e <;> cases e
+
+theorem token_no_semicolon {t : Bytes} (h : IsToken t) : (59 : UInt8) ∉ t :=
+  fun hm => tchar_ne_semicolon (h.2 59 hm) rfl
+
+theorem token_ends {t : Bytes} (h : IsToken t) :
+    (∀ c, t.head? = some c → isSpace c = false) ∧ (∀ c, t.getLast? = some c → isSpace c = false) :=
+  ⟨fun c hc => tchar_not_space (h.2 c (List.mem_of_mem_head? hc)),
+   fun c hc => tchar_not_space (h.2 c (List.mem_of_getLast? hc))⟩
+
+theorem zero_no_semicolon {z : Bytes} (h : z ∈ zeroSpellings) : (59 : UInt8) ∉ z := by
+  simp only [zeroSpellings, List.mem_cons, List.not_mem_nil, or_false] at h
+  rcases h with rfl | rfl | rfl | rfl | rfl <;> decide
+
+theorem splitOn_weighted (lead name ows1 ows2 : Bytes) (qc : UInt8) (qv trail : Bytes)
+    (hlead : IsOWS lead) (hname : IsToken name) (h1 : IsOWS ows1) (h2 : IsOWS ows2) (ht : IsOWS trail)
+    (hq : qc = 113 ∨ qc = 81) (hz : qv ∈ zeroSpellings) :
+    splitOn 59 (weightedElem lead name ows1 ows2 qc qv trail) =
+      [lead ++ name ++ ows1, ows2 ++ ([qc, 61] ++ qv) ++ trail] := by
+  have e : weightedElem lead name ows1 ows2 qc qv trail =
+      (lead ++ name ++ ows1) ++ 59 :: (ows2 ++ ([qc, 61] ++ qv) ++ trail) := by
+    simp [weightedElem, List.append_assoc]
+  have hl : (59 : UInt8) ∉ lead ++ name ++ ows1 := by
+    simp only [List.mem_append, not_or]
+    exact ⟨⟨ows_no_semicolon hlead, token_no_semicolon hname⟩, ows_no_semicolon h1⟩
+  have hr : (59 : UInt8) ∉ ows2 ++ ([qc, 61] ++ qv) ++ trail := by
+    simp only [List.mem_append, List.mem_cons, List.not_mem_nil, or_false, not_or]
+    refine ⟨⟨ows_no_semicolon h2, ⟨?_, by decide⟩, zero_no_semicolon hz⟩, ows_no_semicolon ht⟩
+    rcases hq with rfl | rfl <;> decide
+  rw [e, splitOn_append_sep 59 _ _ hl, splitOn_not_mem 59 _ hr]
+
+theorem elemName_padded (lead name ows1 : Bytes) (rest : List Bytes)
+    (hlead : IsOWS lead) (hname : IsToken name) (h1 : IsOWS ows1) :
+    toLower (trimSpace (lead ++ name ++ ows1)) = toLower name := by
+  rw [trimSpace_padded lead name ows1 (ows_isSpace hlead) (ows_isSpace h1) (token_ends hname).1 (token_ends hname).2]
+
+theorem splitOn_joinElems : ∀ (es : List Bytes), es ≠ [] → (∀ e ∈ es, (44 : UInt8) ∉ e) →
+    splitOn 44 (joinElems es) = es
+  | [], h, _ => absurd rfl h
+  | [e], _, hc => by simp [joinElems, splitOn_not_mem 44 e (hc e List.mem_cons_self)]
+  | e :: e2 :: es, _, hc => by
+    have ih := splitOn_joinElems (e2 :: es) (by simp) (fun x hx => hc x (List.mem_cons_of_mem _ hx))
+    show splitOn 44 (e ++ 44 :: joinElems (e2 :: es)) = _
+    rw [splitOn_append_sep 44 _ _ (hc e List.mem_cons_self), ih]
+
+end CaddyModel.C15
